@@ -82,4 +82,36 @@ theorem scale_rounds_once {sq : QState} {x : Qty} {k qu : ℚ}
   unfold QState.qtyScale
   rw [mkQty_quantum rfl hq hne]; rfl
 
+/-- **sums in a quantised type round once**: the sum / difference of two
+quantities of one type whose left unit has quantum `qu` is the exact sum, in the
+left operand's unit, rounded once to that unit's grid with the default mode —
+whatever the two units are (the right amount is converted exactly first) -/
+theorem sum_rounds_once {sq : QState} (sign : ℚ) {x y : Qty} {a b qu : ℚ}
+    (h : Linear sq.reg y.unit x.unit b a) (ha : a ≠ 0)
+    (hq : sq.reg.unitQuantum x.unit = some qu) (hne : qu ≠ 0) :
+    sq.qtyAddSub d sign x y =
+      .ok ⟨(roundQ d ((x.amount + sign * (b / a * y.amount)) / qu) : ℚ) * qu, x.unit⟩ := by
+  unfold QState.qtyAddSub
+  have hc : (sq.reg.unitCls x.unit != sq.reg.unitCls y.unit) = false := by simp [h.sameCls]
+  simp only [hc, Bool.false_eq_true, ↓reduceIte]
+  rw [unitEq_linear h.symm]
+  by_cases hab : a = b
+  · subst hab
+    simp only [beq_self_eq_true, div_self ha, one_mul]
+    exact mkQty_quantum rfl hq hne
+  · have : (a == b) = false := by simpa using hab
+    simp only [this]
+    rw [equivAmount_linear h ha]
+    exact mkQty_quantum rfl hq hne
+
+/-- the stored amount of EVERY quantity the constructor lets through in a unit
+with quantum `qu` is an integer multiple of `qu` -/
+theorem constructed_amount_on_grid {c : Nat} {a : ℚ} {u : Nat} {qu : ℚ} {r : Qty}
+    (hc : c = s.unitCls u) (hq : s.unitQuantum u = some qu) (hne : qu ≠ 0)
+    (h : s.mkQty d (some c) a u = .ok r) : ∃ k : ℤ, r.amount = k * qu ∧ r.unit = u := by
+  rw [mkQty_quantum hc hq hne] at h
+  simp only [Except.ok.injEq] at h
+  subst h
+  exact ⟨_, rfl, rfl⟩
+
 end QM.Props.C05
